@@ -3,7 +3,7 @@ import asyncio
 
 import random
 
-from haiway import ctx
+from haiway import State, ctx
 
 from harness.decoys import decoyed
 from harness.legs import cfg_text, gen_traces, leg_m, leg_mutant, leg_r, leg_t_gen
@@ -53,6 +53,10 @@ class Err(Exception):
         return 19
 
 
+class _Note(State):
+    v: int
+
+
 class FlightDriver:
     def __init__(self, method=False):
         self.loop = None
@@ -67,6 +71,9 @@ class FlightDriver:
         self.clock = VClock(loop)
         self.clock.__enter__()
         self.now = 0
+        import logging
+        logging.getLogger().addHandler(logging.NullHandler())     # (what the library logs about refused records is not judged here)
+        logging.getLogger().setLevel(logging.CRITICAL + 1)
         self.invs = []  # dict(key, st, canc, gate, obj)
         self.cl = {c: dict(pc="idle", key=0, inv=0, out="none", got=0) for c in range(1, self.nc + 1)}
         self.tasks = {}
@@ -84,6 +91,9 @@ class FlightDriver:
                 rec["st"] = "cancelled"
                 raise
             rec["st"] = o
+            # the function uses the context it runs in - a copy of the FIRST caller's, whose scope may be gone by now:
+            # recording there never raises
+            ctx.record(_Note(v=n))
             if o == "val":
                 rec["obj"] = Val(n)
                 return rec["obj"]
